@@ -16,6 +16,7 @@ import StamModel.Driver.Tid
 import StamModel.Driver.Hs
 import StamModel.Driver.Sq
 import StamModel.Driver.Vo
+import StamModel.Driver.Rg
 /-
   Line-protocol driver: one request per line on stdin, one answer per line on stdout.
   Built as the `stamdriver` executable (core Lean only).
@@ -44,6 +45,7 @@ def step (line : String) : String :=
   | "lim" :: args => lim args
   | "sq" :: args => sq args
   | "vo" :: args => vo args
+  | "rg" :: args => rg args
   | "sqspec" :: args => sqspec args
   | ["reset"] => "ok"
   | _ => "bad-op"
